@@ -133,6 +133,14 @@ def exact(case, ctx):
                 continue
             if ratios[j] >= 1000 and ctx.kf("C01-KF1") and rel <= tol_rel[j]:
                 continue
+            if ratios[j] < 1000 and ctx.kf("C01-KF2"):
+                # known finding: the whole excess is explained by the truncated constant 6.2831853 -- the library series
+                # meets the same bound against the exact solution for w = 6.2831853/T
+                u2, v2 = ref.response(a, dt, ref.library_periods(T[j:j + 1]), xi)
+                lib = np.asarray(ru[s + j] if name == "displacement" else rv[s + j]).astype(LD)
+                e2 = float(np.max(np.abs(lib - (u2[0] if name == "displacement" else v2[0]))))
+                if e2 / sc <= tol[j]:
+                    continue
             ctx.fail("%s series, T/dt=%.6g xi=%r dt=%r n=%d: max error %.3e relative to scale %.3e = %.3e > tol %.3e" % (
                 name, ratios[j], xi, dt, n, e, sc, rel, tol[j]))
     ctx.notes["worst"] = float(max(np.max(eu / np.where(su > 0, su, 1) / tol), np.max(ev / np.where(sv > 0, sv, 1) / tol)))
